@@ -293,6 +293,19 @@ class FileResponse(StreamResponse):
             _CLOSE_FUTURES.add(close_future)
             close_future.add_done_callback(_CLOSE_FUTURES.remove)
 
+    @staticmethod
+    def _if_range_matches(request: "BaseRequest", st: os.stat_result) -> bool:
+        """Whether the Range header may be honoured (no If-Range, or it matches)."""
+        if (ifrange := request.if_range) is not None:
+            # HTTP-date form
+            return st.st_mtime <= ifrange.timestamp()
+        value = request.headers.get(hdrs.IF_RANGE, "").strip()
+        if value.startswith(('"', 'W/"')):
+            # entity-tag form: strong comparison, so a weak tag never matches
+            # https://www.rfc-editor.org/rfc/rfc9110#section-13.1.5
+            return value == f'"{st.st_mtime_ns:x}-{st.st_size:x}"'
+        return True
+
     async def _prepare_open_file(
         self,
         request: "BaseRequest",
@@ -306,7 +319,7 @@ class FileResponse(StreamResponse):
         count: int = file_size
         start: int | None = None
 
-        if (ifrange := request.if_range) is None or file_mtime <= ifrange.timestamp():
+        if self._if_range_matches(request, st):
             # If-Range header check:
             # condition = cached date >= last modification date
             # return 206 if True else 200.
